@@ -24,7 +24,7 @@ def conditions(tier):
     # identifiers x identifier annotations x every layout
     for idn in range(len(H.IDENTS)):
         conds.append(ch.Cond('h_c10', 'block', [('ident_ann', 'int')] + lay,
-                         pre=['0 <= ident_ann < %d' % len(H.IDENT_ANNS)] + laypre,
+                         pre=['0 <= ident_ann < %d' % len(H.IDENT_ANNS)] + laypre + (['indent in (0, 3, 4)', 'cont_indent == 0'] if quick else []),
                          fixed=dict(none, ident=idn), timeout=T, name='identifier lines[%s]' % H.IDENTS[idn],
                          bounds='7 identifier forms (symbol, Class:property, Class::signal, Struct.field, SECTION, constant, '
                                 'type) x 9 annotation lists (lists, key=value, unknown annotation) x layouts (5 indentations '
@@ -36,27 +36,27 @@ def conditions(tier):
         sym = [('ident_ann', 'int'), ('pann', 'int'), ('pdesc', 'int')] + [x for x in lay if x[0] != 'split']
         pre = ['ident_ann in (0, 4)', '0 <= pann < %d' % len(H.PARAM_ANNS), '0 <= pdesc < %d' % len(H.DESCS)] + laypre
         if quick:
-            pre += ['indent in (0, 3)', 'eol <= 1']
+            pre += ['indent in (0, 3)', 'eol <= 1', 'pdesc in (0, 1, 2, 6)']
         conds.append(ch.Cond('h_c10', 'block', sym, pre=pre, fixed=fx, timeout=T, name='parameters[%s%s]' % (', '.join(H.PARAM_SETS[ps]), '; annotations on several lines' if spl else ''),
                              bounds='parameters %r: 14 annotation lists x 6 descriptions (absent, one line, wrapped, with colon '
                                     'and parentheses, non-ASCII) x layouts' % (H.PARAM_SETS[ps],)))
     # description and tags
-    for bd in range(len(H.BLOCK_DESCS)):
-        fx = dict(none, ident=0, ident_ann=1, pset=2, pann=2, pdesc=2, bdesc=bd)
+    for bd, spl in [(a, b) for a in range(len(H.BLOCK_DESCS)) for b in (False, True)]:
+        fx = dict(none, ident=0, ident_ann=1, pset=2, pann=2, pdesc=2, bdesc=bd, split=spl)
         for k in ('ret_ann', 'ret_desc', 'since', 'deprecated', 'stab'):
             del fx[k]
         sym = [('ret_ann', 'int'), ('ret_desc', 'int'), ('since', 'int'), ('deprecated', 'int'), ('stab', 'int'),
-               ('indent', 'int'), ('eol', 'int'), ('split', 'bool'), ('cont_indent', 'int')]
+               ('indent', 'int'), ('eol', 'int'), ('cont_indent', 'int')]
         pre = ['-1 <= ret_ann < %d' % len(H.PARAM_ANNS), '0 <= ret_desc < %d' % len(H.DESCS),
                '0 <= since < %d' % len(H.VERSIONS), '0 <= deprecated < %d' % len(H.VERSIONS), '0 <= stab < %d' % len(H.STABS),
                '0 <= cont_indent <= 1']
         fx['colon'] = True
         if quick:
             pre += ['indent in (0, 4)', 'eol in (0, 2)', 'ret_ann in (-1, 0, 2, 7)', 'ret_desc in (0, 1, 6)', 'since <= 2',
-                    'deprecated in (0, 3)']
+                    'deprecated in (0, 3)', 'stab in (0, 2)', 'cont_indent == 0']
         else:
             pre += ['0 <= indent < %d' % len(H.INDENTS), '0 <= eol < %d' % len(H.EOLS)]
-        conds.append(ch.Cond('h_c10', 'block', sym, pre=pre, fixed=fx, timeout=T, name='description and tags[%d]' % bd,
+        conds.append(ch.Cond('h_c10', 'block', sym, pre=pre, fixed=fx, timeout=T, name='description and tags[%d%s]' % (bd, ', annotations on several lines' if spl else ''),
                              bounds='block description variant %d (absent, one paragraph, two wrapped paragraphs, embedded '
                                     'code with indentation, ending in a colon) x Returns (annotations x descriptions) x '
                                     'Since x Deprecated x Stability x layouts' % bd))
